@@ -131,7 +131,10 @@ func (s *session) recover() (err error) {
 		if os.IsNotExist(err) {
 			// Don't return os.ErrNotExist if the underlying storage contains
 			// other files that belong to LevelDB. So the DB won't get trashed.
-			if fds, _ := s.stor.List(storage.TypeAll); len(fds) > 0 {
+			// A storage holding nothing but manifest files is what a crash during
+			// the initial creation leaves behind (the manifest is written before
+			// CURRENT, the first journal comes after it): no data can exist yet.
+			if fds, _ := s.stor.List(storage.TypeAll &^ storage.TypeManifest); len(fds) > 0 {
 				err = &errors.ErrCorrupted{Err: errors.New("database entry point either missing or corrupted")}
 			}
 		}
